@@ -710,7 +710,9 @@ macro_rules! declare_storage_n {
 
                 #[inline(always)]
                 fn resolve_direct(&self, entity: EntityDirect<A>) -> Option<EntityDirect<A>> {
-                    Some(entity) // Trivially return, as we're already an EntityDirect
+                    // We're already an EntityDirect, but the handle still has to be valid.
+                    self.resolve_direct(entity)?;
+                    Some(entity)
                 }
 
                 #[inline]
